@@ -30,6 +30,7 @@ type RInput struct {
 	Dict    *gen.Recipe  `json:"dict,omitempty"`     // zlib: dictionary the stream was written with (FDICT set when non-nil)
 	RDict   *gen.Recipe  `json:"rdict,omitempty"`    // zlib: dictionary handed to the reader (may differ / be nil)
 	More    []StreamSpec `json:"more,omitempty"`     // gzip: further members appended after this one
+	DLevel  int          `json:"dlevel,omitempty"`   // flate with Dict: compress/flate level the stream is written with (0 = 6)
 	BadSum  bool         `json:"badsum,omitempty"`   // corrupt the trailer checksum
 	CutTail int          `json:"cut_tail,omitempty"` // drop this many bytes from the end of the container
 }
@@ -39,6 +40,7 @@ type RUse struct {
 	Plan   string `json:"plan"` // none | partial | full
 	K      int    `json:"k,omitempty"`
 	Single bool   `json:"single,omitempty"`  // gzip: Multistream(false) was called during this use
+	Close  bool   `json:"close,omitempty"`   // the caller Closes the Reader before the next Reset (pool idiom)
 	OwnBuf int    `json:"own_buf,omitempty"` // this use reads through a caller-owned *bufio.Reader of this size with extra bytes after the stream; the Reader must never touch it again once Reset onto another source
 }
 
@@ -88,7 +90,14 @@ func buildContainer(pkg string, in RInput) ([]byte, error) {
 		if in.Dict != nil {
 			// written by compress/flate with the dictionary, so that matches may reach into it
 			var b bytes.Buffer
-			w, e := stdflate.NewWriterDict(&b, 6, recipeBytes(in.Dict))
+			lvl := in.DLevel
+			if lvl == 0 {
+				lvl = 6
+			}
+			if lvl == 10 {
+				lvl = 0 // stored blocks
+			}
+			w, e := stdflate.NewWriterDict(&b, lvl, recipeBytes(in.Dict))
 			if e != nil {
 				return nil, e
 			}
@@ -291,6 +300,12 @@ func drawRInput(t *rapid.T, pkg string, allowBad bool) RInput {
 		case 0, 1:
 			d := gen.Recipe{Segs: []gen.Seg{{Kind: "text", N: rapid.SampledFrom([]int{1, 16, 300, 2000, 32768, 40000}).Draw(t, "dlen"), Seed: 3}}}
 			in.Dict, in.RDict = &d, &d
+			in.DLevel = rapid.SampledFrom([]int{6, 6, 10, -2, 1, 9}).Draw(t, "dlevel")
+			if rapid.IntRange(0, 3).Draw(t, "dbig") == 0 {
+				// more than one output window of data behind a dictionary
+				big := gen.Recipe{Segs: []gen.Seg{{Kind: "text", N: rapid.SampledFrom([]int{65536, 70000, 140000}).Draw(t, "dbign"), Seed: 9}}}
+				in.Stream = StreamSpec{Kind: "std", Set: &WSetting{Ctor: "new", Level: 1}, Data: &big, Ops: []gen.Op{{K: "W", N: big.Len()}}}
+			}
 		case 2:
 			d := gen.Recipe{Segs: []gen.Seg{{Kind: "text", N: 100, Seed: 5}}}
 			in.RDict = &d // reader given a dictionary the stream does not refer to
@@ -339,6 +354,7 @@ func drawC13(t *rapid.T) C13Case {
 			u.OwnBuf = rapid.SampledFrom([]int{16, 64, 4096, 65536}).Draw(t, "ownbufsize")
 		}
 		u.K = rapid.SampledFrom([]int{1, 2, 10, 100, 1000, 5000, 40000}).Draw(t, "k")
+		u.Close = rapid.IntRange(0, 2).Draw(t, "close") == 0
 		c.Before = append(c.Before, u)
 	}
 	c.Next = drawRInput(t, c.Pkg, true)
@@ -501,6 +517,12 @@ func checkC13(c C13Case) (labels []string, nontrivial bool, err error) {
 			labels = append(labels, "before:no-reads")
 		}
 		_ = i
+		if u.Close {
+			if cl, ok := r.(io.Closer); ok {
+				cl.Close()
+				labels = append(labels, "before:closed-by-caller")
+			}
+		}
 		if cb != nil {
 			snapshot(cb)
 		}
